@@ -375,8 +375,6 @@ pub struct Shared {
     pub t3_g2: Vec<Vec<G2Affine>>,
     pub t256_g1: Vec<Vec<G1Affine>>,
     pub t256_g2: Vec<Vec<G2Affine>>,
-    pub prep_g1: Vec<G1Prepared>,
-    pub prep_g2: Vec<G2Prepared>,
 }
 
 impl Shared {
@@ -390,10 +388,7 @@ impl Shared {
             t3_g2: vec![vec![]; p.g2_nsub],
             t256_g1: vec![],
             t256_g2: vec![],
-            prep_g1: p.g1.iter().take(p.g1_nsub).map(|x| x.prepare()).collect(),
-            prep_g2: vec![],
         };
-        let mut need_prep2 = false;
         for o in ops {
             match o.k.as_str() {
                 "g1_mul3" => {
@@ -412,19 +407,15 @@ impl Shared {
                         s.t3_g2[i] = t;
                     }
                 }
-                "miller" => need_prep2 = true,
                 _ => {}
             }
-        }
-        if need_prep2 {
-            s.prep_g2 = p.g2.iter().take(p.g2_nsub).map(|x| x.prepare()).collect();
         }
         s
     }
 
     pub fn build(with_256: bool) -> Shared {
         let p = sp();
-        let mut s = Shared { t3_g1: vec![], t3_g2: vec![], t256_g1: vec![], t256_g2: vec![], prep_g1: vec![], prep_g2: vec![] };
+        let mut s = Shared { t3_g1: vec![], t3_g2: vec![], t256_g1: vec![], t256_g2: vec![] };
         for i in 0..p.g1_nsub {
             let mut t = vec![G1Affine::zero(); 3];
             p.g1[i].precomp_3(&mut t);
@@ -434,7 +425,6 @@ impl Shared {
                 p.g1[i].precomp_256(&mut t);
                 s.t256_g1.push(t);
             }
-            s.prep_g1.push(p.g1[i].prepare());
         }
         for i in 0..p.g2_nsub {
             let mut t = vec![G2Affine::zero(); 3];
@@ -445,7 +435,6 @@ impl Shared {
                 p.g2[i].precomp_256(&mut t);
                 s.t256_g2.push(t);
             }
-            s.prep_g2.push(p.g2[i].prepare());
         }
         s
     }
@@ -486,10 +475,23 @@ impl<'a> ThreadObjs<'a> {
 pub struct RunShared {
     pub sctx1: Vec<Mutex<Ctx<G1>>>,
     pub sctx2: Vec<Mutex<Ctx<G2>>>,
+    /// prepared pairing inputs, built once per scenario and then shared by reference between all its
+    /// threads (a fresh set per scenario: "first use" of a prepared element happens in every scenario)
+    pub prep_g1: Vec<G1Prepared>,
+    pub prep_g2: Vec<G2Prepared>,
 }
 impl RunShared {
-    pub fn new(n: usize) -> RunShared {
-        RunShared { sctx1: (0..n).map(|_| Mutex::new(Wnaf::new())).collect(), sctx2: (0..n).map(|_| Mutex::new(Wnaf::new())).collect() }
+    pub fn new(n: usize, with_prepared: bool) -> RunShared {
+        let p = sp();
+        RunShared {
+            sctx1: (0..n).map(|_| Mutex::new(Wnaf::new())).collect(),
+            sctx2: (0..n).map(|_| Mutex::new(Wnaf::new())).collect(),
+            prep_g1: if with_prepared { p.g1.iter().take(p.g1_nsub).map(|x| x.prepare()).collect() } else { vec![] },
+            prep_g2: if with_prepared { p.g2.iter().take(p.g2_nsub).map(|x| x.prepare()).collect() } else { vec![] },
+        }
+    }
+    pub fn needs_prepared(ops: &[Op]) -> bool {
+        ops.iter().any(|o| o.k == "miller")
     }
 }
 
@@ -1047,9 +1049,9 @@ pub fn eval<'a>(op: &Op, sh: &Shared, rs: &RunShared, tl: &mut ThreadObjs<'a>) -
             }
         }
         "miller" => {
-            let n = if sh.prep_g2.is_empty() { 0 } else { a(0) % 4 };
+            let n = if rs.prep_g2.is_empty() || rs.prep_g1.is_empty() { 0 } else { a(0) % 4 };
             let pairs: Vec<(&G1Prepared, &G2Prepared)> =
-                (0..n).map(|t| (&sh.prep_g1[(a(1) + t) % sh.prep_g1.len()], &sh.prep_g2[(a(2) + t) % sh.prep_g2.len().max(1)])).collect();
+                (0..n).map(|t| (&rs.prep_g1[(a(1) + t) % rs.prep_g1.len().max(1)], &rs.prep_g2[(a(2) + t) % rs.prep_g2.len().max(1)])).collect();
             let f = if a(3) % 2 == 1 { Bls12::miller_loop(YIter(pairs.iter())) } else { Bls12::miller_loop(pairs.iter()) };
             f.img(&mut out);
         }
